@@ -4,41 +4,14 @@ C04 — "Coordinate conversions and dimension changes lose nothing" (glue part).
 Theorems about the hand-written glue model (`VectorModel/Glue/Methods.lean`): `toDim` (`to_Vector2D/3D/4D`, `to_2D/3D/4D`,
 `like`), `toSystem` (`to_xy`, `to_rhophiztau`, …) and the table `toTable` of the 40 `to_<system>` conversions.
 All statements hold for every scalar type `S`, truth type `B` and compute layer `ev`; the only facts about the compute
-layer that are needed (the nine identity accessors) are the explicit hypothesis `C04.IdLaws ev`, which is proved for the
-generated executable copy (`c04_idLaws_exec`).
+layer that are needed (the nine identity accessors) are the explicit hypothesis `IdLaws ev` (shared with
+`Props/C15.lean`, as are `WF` / `WFV`), which is proved for the generated executable copy (`c04_idLaws_exec`).
 -/
-import VectorModel.Glue.Methods
-import VectorModel.Gen.Exec.All
+import VectorModel.Props.C15
 
 set_option linter.unusedVariables false
 namespace VG
 open VK
-
-namespace C04
-
-/-- well-formed type: a temporal coordinate only on top of a longitudinal one -/
-def WF (ty : VT) : Prop := ty.tmp.isSome → ty.lon.isSome
-
-/-- well-formed vector: well-formed type and as many stored coordinates as the type has -/
-structure WFV {S : Type} (v : Vec S) : Prop where
-  wf : WF v.ty
-  len : v.c.length = v.ty.dim
-
-/-- the nine identity accessors of the compute layer: reading a coordinate in the system it is stored in returns the
-stored value -/
-structure IdLaws {S B : Type} (ev : Ev S B) : Prop where
-  x : ∀ a b, ev .planar_x [.az .xy] [a, b] = some (.vals [a], .float)
-  y : ∀ a b, ev .planar_y [.az .xy] [a, b] = some (.vals [b], .float)
-  rho : ∀ a b, ev .planar_rho [.az .rhophi] [a, b] = some (.vals [a], .float)
-  phi : ∀ a b, ev .planar_phi [.az .rhophi] [a, b] = some (.vals [b], .float)
-  z : ∀ az a b c, ev .spatial_z [.az az, .lon .z] [a, b, c] = some (.vals [c], .float)
-  theta : ∀ az a b c, ev .spatial_theta [.az az, .lon .theta] [a, b, c] = some (.vals [c], .float)
-  eta : ∀ az a b c, ev .spatial_eta [.az az, .lon .eta] [a, b, c] = some (.vals [c], .float)
-  t : ∀ az lon a b c d, ev .lorentz_t [.az az, .lon lon, .tmp .t] [a, b, c, d] = some (.vals [d], .float)
-  tau : ∀ az lon a b c d, ev .lorentz_tau [.az az, .lon lon, .tmp .tau] [a, b, c, d] = some (.vals [d], .float)
-
-end C04
-open C04
 
 section
 variable {S B : Type}
@@ -157,7 +130,7 @@ theorem c04_toDim_embed_prefix (z : S) (v r : Vec S) (hv : WFV v) (target : Nat)
   have h2 : 2 ≤ target := by have := dim_cases v.ty; omega
   have := (c04_toDim_retained z v r hv target h2 h4 lonKw tmpKw o h).1
   rw [Nat.min_eq_right hd] at this
-  rw [this, ← hv.len, List.take_length]
+  rw [this, ← hv.2, List.take_length]
 
 /-! rejected keyword combinations -/
 
